@@ -476,6 +476,21 @@ def run_cli_subproc(case):
                     'PYPYR_SKIP_INIT': '1', 'PYTHONIOENCODING': 'utf-8', 'PYTHONUTF8': '1',
                     'C18_PROBE_OUT': str(sb.probe_out),
                     'C18_BOOM': json.dumps(case.get('boom') or {})})
+        startup = case.get('startup')
+        if startup:
+            # let main do its real start-up (config look-up), kept away from this machine's own
+            # configuration; then plant the fault
+            env.pop('PYPYR_SKIP_INIT')
+            home = Path(tmp, 'home')
+            home.mkdir()
+            env.update({'HOME': str(home), 'XDG_CONFIG_HOME': str(home / 'xdg-home'),
+                        'XDG_CONFIG_DIRS': str(home / 'xdg-dirs')})
+            if startup == 'bad-local-config-yaml':
+                (sb.cwd / 'pypyr-config.yaml').write_text('vars: [1, 2\nnot: closed\n', encoding='utf-8')
+            elif startup == 'local-config-not-a-mapping':
+                (sb.cwd / 'pypyr-config.yaml').write_text('- just\n- a list\n', encoding='utf-8')
+            elif startup == 'missing-global-config':
+                env['PYPYR_CONFIG_GLOBAL'] = str(Path(tmp, 'no-such-config.yaml'))
         p = subprocess.run([sys.executable, '-m', 'pypyr'] + argv, cwd=str(sb.cwd), env=env,
                            stdout=subprocess.PIPE, stderr=subprocess.PIPE, timeout=120)
         stdout = p.stdout.decode('utf-8', 'replace')
